@@ -320,6 +320,96 @@ def r06_4(rep: Report) -> None:
         raise AnalysisError(f'Representation.load: tfdt / no-tfdt paths not both found ({sorted(seen)})')
 
 
+def _lin2(e: ast.AST, env: dict) -> dict:
+    """linear form where every non-linear sub-expression is an opaque symbol (its text)"""
+    if isinstance(e, ast.Constant) and isinstance(e.value, int) and not isinstance(e.value, bool):
+        return {'1': e.value} if e.value else {}
+    t = norm(e)
+    if t in env:
+        return dict(env[t])
+    if isinstance(e, ast.BinOp) and isinstance(e.op, (ast.Add, ast.Sub)):
+        a, b = _lin2(e.left, env), _lin2(e.right, env)
+        sg = 1 if isinstance(e.op, ast.Add) else -1
+        out = dict(a)
+        for k, v in b.items():
+            out[k] = out.get(k, 0) + sg * v
+        return {k: v for k, v in out.items() if v}
+    if isinstance(e, ast.Call) and norm(e.func) == 'int' and len(e.args) == 1:
+        return _lin2(e.args[0], env)
+    if isinstance(e, ast.UnaryOp) and isinstance(e.op, ast.USub):
+        return {k: -v for k, v in _lin2(e.operand, env).items()}
+    # substitute known names inside an opaque term so that equal terms compare equal
+    return {t: 1}
+
+
+def r06_5(rep: Report) -> None:
+    """static (non-live) addressing: the number that is advertised / written into the served segment
+    and the index into the stored file differ by the file's first sequence number:
+    mod_segment == 1 + segment_num - start_number on every return of the non-live branch of
+    calculate_segment_number_and_time (files whose first mfhd.sequence_number is not 1)."""
+    rid = 'R06.5'
+    tree = rep.repo.tree(REP)
+    cls = need(find_class(tree, 'Representation'), 'Representation')
+    fn = need(find_func(cls, 'calculate_segment_number_and_time'), 'calculate_segment_number_and_time')
+    construct = f'{REP}::Representation.calculate_segment_number_and_time'
+    branch = None
+    for st in fn.body:
+        if isinstance(st, ast.If) and "mode != 'live'" in norm(st.test):
+            branch = st.body
+        elif isinstance(st, ast.If) and "mode == 'live'" in norm(st.test) and st.orelse:
+            branch = st.orelse
+    if branch is None:
+        raise AnalysisError('calculate_segment_number_and_time: non-live branch not found')
+    found = 0
+
+    def run(stmts: list[ast.stmt], env: dict) -> None:
+        nonlocal found
+        for st in stmts:
+            if isinstance(st, ast.If):
+                run(st.body, dict(env))
+                env2 = dict(env)
+                run(st.orelse, env2)
+                # fall-through: both arms may have assigned; keep the arm states separately
+                body_env = dict(env)
+                _assign_all(st.body, body_env)
+                after = [body_env, env2] if not _ends(st.body) else [env2]
+                rest = stmts[stmts.index(st) + 1:]
+                for e2 in after:
+                    run(rest, e2)
+                return
+            if isinstance(st, ast.Assign) and len(st.targets) == 1:
+                env[norm(st.targets[0])] = _lin2(st.value, env)
+            elif isinstance(st, ast.Return) and isinstance(st.value, ast.Call) \
+                    and (call_name(st.value) or '').endswith('SegmentNumberAndTime') and len(st.value.args) >= 2:
+                num, idx = _lin2(st.value.args[0], env), _lin2(st.value.args[1], env)
+                diff = dict(num)
+                for k, v in idx.items():
+                    diff[k] = diff.get(k, 0) - v
+                diff = {k: v for k, v in diff.items() if v}
+                found += 1
+                key = f'return {short(st.value, 50)} #{found}'
+                if diff == {'self.start_number': 1, '1': -1}:
+                    rep.ok(rid, construct, key, 'number - index == start_number - 1')
+                else:
+                    rep.fail(rid, construct, key,
+                             f'on a static path the returned number and file index differ by {_fmt(diff)}; they '
+                             'must differ by start_number - 1 (a stored file whose first sequence number '
+                             'is not 1 is addressed one or more segments off, and the served mfhd '
+                             'sequence number is wrong)', st)
+
+    def _assign_all(stmts, env):
+        for st in stmts:
+            if isinstance(st, ast.Assign) and len(st.targets) == 1:
+                env[norm(st.targets[0])] = _lin2(st.value, env)
+
+    def _ends(stmts) -> bool:
+        return bool(stmts) and isinstance(stmts[-1], (ast.Return, ast.Raise))
+
+    run(branch, {})
+    if not found:
+        raise AnalysisError('calculate_segment_number_and_time: no SegmentNumberAndTime return on the static path')
+
+
 def analyse(rep: Report) -> None:
     rep.explanation = (
         'Conventions that the static manifests and the media endpoint must share: the inclusive '
@@ -330,8 +420,10 @@ def analyse(rep: Report) -> None:
     rep.rule('R06.1', 'inclusive byte-range convention agrees between writer and readers', floor=5)
     rep.rule('R06.2', 'declared static duration comes from the timing reference only', floor=11)
     rep.rule('R06.3', 'numbers outside first..last are refused on every path', floor=3)
+    rep.rule('R06.5', 'static addressing: number and file index differ by start_number - 1', floor=2)
     rep.rule('R06.4', 'indexer clock: start = previous end or tfdt, end = start + sample durations', floor=6)
     r06_1(rep)
     r06_2(rep)
     r06_3(rep)
     r06_4(rep)
+    r06_5(rep)
